@@ -230,8 +230,39 @@ func processPoints(points []Point, closed bool) (
 	}
 	var concave bool
 	var dir int
-	var a, b, c Point
+	var a, b Point
 	var cwc float64
+
+	// n is the number of points in the cyclic sequence. A closed series that
+	// repeats its first point as the last point must not visit that point
+	// twice, otherwise the turn at the first point is never evaluated.
+	n := len(points)
+	if closed && points[0] == points[n-1] {
+		n--
+	}
+	// first and prev are the first and the previous edge that has a length.
+	// The turns are taken between these edges, so that a repeated point does
+	// not hide the turn around it.
+	var first, prev Point
+	var hasPrev bool
+	turn := func(u, v Point) {
+		zCrossProduct := u.X*v.Y - u.Y*v.X
+		if dir == 0 {
+			if zCrossProduct < 0 {
+				dir = -1
+			} else if zCrossProduct > 0 {
+				dir = 1
+			}
+		} else if zCrossProduct < 0 {
+			if dir == 1 {
+				concave = true
+			}
+		} else if zCrossProduct > 0 {
+			if dir == -1 {
+				concave = true
+			}
+		}
+	}
 
 	for i := 0; i < len(points); i++ {
 		// process the rectangle inflation
@@ -249,19 +280,13 @@ func processPoints(points []Point, closed bool) (
 				rect.Max.Y = points[i].Y
 			}
 		}
-
-		// gather some point positions for concave and clockwise detection
-		a = points[i]
-		if i == len(points)-1 {
-			b = points[0]
-			c = points[1]
-		} else if i == len(points)-2 {
-			b = points[i+1]
-			c = points[0]
-		} else {
-			b = points[i+1]
-			c = points[i+2]
+		if i >= n {
+			continue
 		}
+
+		// gather the edge for concave and clockwise detection
+		a = points[i]
+		b = points[(i+1)%n]
 
 		// process the clockwise detection
 		cwc += (b.X - a.X) * (b.Y + a.Y)
@@ -270,23 +295,20 @@ func processPoints(points []Point, closed bool) (
 		if concave {
 			continue
 		}
-
-		zCrossProduct := (b.X-a.X)*(c.Y-b.Y) - (b.Y-a.Y)*(c.X-b.X)
-		if dir == 0 {
-			if zCrossProduct < 0 {
-				dir = -1
-			} else if zCrossProduct > 0 {
-				dir = 1
-			}
-		} else if zCrossProduct < 0 {
-			if dir == 1 {
-				concave = true
-			}
-		} else if zCrossProduct > 0 {
-			if dir == -1 {
-				concave = true
-			}
+		edge := Point{b.X - a.X, b.Y - a.Y}
+		if edge.X == 0 && edge.Y == 0 {
+			continue
 		}
+		if !hasPrev {
+			first, hasPrev = edge, true
+		} else {
+			turn(prev, edge)
+		}
+		prev = edge
+	}
+	if hasPrev {
+		// the turn at the start of the first edge
+		turn(prev, first)
 	}
 	return !concave, rect, cwc > 0
 }
